@@ -1078,6 +1078,11 @@ def run(ctx):
     cover_length_regression(ctx)
     run_k2m(ctx, rng, ctx.n(120, 1500))
     run_k5(ctx, rng, ctx.n(20, 100))
+    # MinFlowDecomp accepts additional starts / ends in node mode only, so there is no explicit edge-mode counterpart to compare
+    # with: the node-mode answer is judged by C03's brute-force minimum over node-weighted paths that may start / end there
+    from props import c03
+    for it in range(ctx.n(12, 80)):
+        c03.k5_case(ctx, c03.node_ends_instance(rng), {}, None, suite="K5.mfd_node_starts_ends")
     # the engine starts the failing-input search only when no violation was recorded at all; violations that are
     # known findings must not keep a broken tie from being investigated
     if ctx.disagreements and ctx.violations:
